@@ -109,6 +109,9 @@ func explore19(r *kit.Run, n, t int) (int, int, string) {
 		if in.Variant == "outside" || in.Variant == "again" || in.PID == -1 {
 			continue
 		}
+		if in.Fail && in.Variant == "late" {
+			continue // (C05's late-stamped failure reports: the same transitions as the in-time ones here)
+		}
 		req, err := types.FSMRequestFromMessage(in.Msg)
 		if err != nil {
 			continue
